@@ -434,6 +434,7 @@ func check(id, tier string) int {
 	sort.Strings(fails)
 	nviol := 0
 	reported := map[string]bool{}
+	var norepro []string
 	for _, f := range fails {
 		if nviol >= 3 {
 			break
@@ -473,8 +474,11 @@ func check(id, tier string) int {
 		if strings.Contains(out, "MINIMISED") {
 			final = f + ".min"
 		} else if strings.Contains(out, "MINIMISE-NOREPRO") {
-			fmt.Fprintf(os.Stderr, "wsimctl: failing run %s does not reproduce when re-executed: harness determinism problem (exit 2, not a verdict)\n%s\n", filepath.Base(f), tail(out, 20))
-			return 2
+			// a failure that depends on what earlier runs left behind in the worker
+			// process (or on harness nondeterminism) is not a verdict; it is set
+			// aside, and decides the exit status only if nothing reproducible was found
+			norepro = append(norepro, fmt.Sprintf("failing run %s does not reproduce when re-executed\n%s", filepath.Base(f), tail(out, 20)))
+			continue
 		}
 		// fresh-process validation of the replay file
 		rout, _, _ := runEngine(b.bin, 4*time.Minute, "-wsim.trace", final, "-wsim.sites", filepath.Join(b.dir, "sites.json"))
@@ -483,8 +487,8 @@ func check(id, tier string) int {
 			final = f
 			rout, _, _ = runEngine(b.bin, 4*time.Minute, "-wsim.trace", final, "-wsim.sites", filepath.Join(b.dir, "sites.json"))
 			if !strings.Contains(rout, "REPLAY-VIOLATION") {
-				fmt.Fprintf(os.Stderr, "wsimctl: failing run %s does not reproduce in a fresh process: harness determinism problem (exit 2, not a verdict)\n%s\n", filepath.Base(f), tail(rout, 20))
-				return 2
+				norepro = append(norepro, fmt.Sprintf("failing run %s does not reproduce in a fresh process\n%s", filepath.Base(f), tail(rout, 20)))
+				continue
 			}
 		}
 		os.MkdirAll(filepath.Join(verifDir, "replays"), 0o755)
@@ -500,6 +504,13 @@ func check(id, tier string) int {
 		reported[tr.Violation.Oracle] = true
 		nviol++
 		status = 1
+	}
+	for _, m := range norepro {
+		fmt.Fprintf(os.Stderr, "wsimctl: set aside (not a verdict): %s\n", m)
+	}
+	if len(norepro) > 0 && nviol == 0 && status == 0 {
+		fmt.Fprintln(os.Stderr, "wsimctl: infrastructure problem (exit 2, not a verdict): a failing run did not reproduce and nothing reproducible was found")
+		return 2
 	}
 	if raceHung && nviol == 0 && status == 0 {
 		fmt.Fprintln(os.Stderr, "wsimctl: infrastructure problem (exit 2, not a verdict): the free-running race pass exceeded its watchdog and the deterministic part found nothing")
